@@ -32,6 +32,9 @@ Tie.  Three kinds of cases:
           bytes subclass, read() returning those, paths as str / bytes / pathlib.Path / relative /
           with `..` / through a directory symlink / with a non-UTF-8 name
   hgd     hashutil.hash_git_data for every git object type x base algorithm, unknown types
+  handout a hasher handed out by from_data / from_file / from_path / copy / from_state is fed further by
+          its caller; then the same / an equal / a shorter / the extended input is hashed again
+          through every entry point (the returned-object channel)
   seq     2-5 contents of the same length differing in one byte hashed one after another (and
           again) through the in-memory entry points, optionally re-filling ONE BytesIO object
   stream  MultiHash.from_file on every stream class (BytesIO, BytesIO subclass, real file buffered /
@@ -122,7 +125,18 @@ RULE = ("lengths {0,1,2} + {k*32768+d | k in 0..3, d in -2..2} + random <= 100 k
         "made afterwards must be unaffected.  Also: hashutil's module constants (ALGORITHMS, DEFAULT_ALGORITHMS, HASH_BLOCK_SIZE) are "
         "compared before/after every case; scripts clear the names list right after constructing the hasher; the routes call "
         "from_symlink directly, Content.from_file on /dev/null and on a directory, to_model() of visible and absent contents, and "
-        "the four *_to_* conversion helpers on every digest; thorough adds two inputs of 0.6 and 1 MiB through the MultiHash entry points.  SOURCE-DERIVED values: about 8 % of "
+        "the four *_to_* conversion helpers on every digest; thorough adds two inputs of 0.6 and 1 MiB through the MultiHash entry points.  RETURNED-OBJECT channel (kind handout): a hasher handed out by "
+        "MultiHash.from_data / from_file / from_path / copy() / from_state (default or given names) - or, seen from the other side, a "
+        "fresh MultiHash() streaming x then an extension - is fed 1-3 further chunks by its caller with digest()/hexdigest()/"
+        "bytehexdigest() calls in between; x was optionally hashed before through one or two entry points; afterwards the very same "
+        "bytes object, an equal but distinct object, a prefix, the extended string and the extension alone are hashed through "
+        "from_data (default and given names), from_file, from_path, chunked update, hash_git_data, model.Content/"
+        "SkippedContent.from_data, from_disk.Content.from_bytes / from_file / a symlink with that target, "
+        "cli.swhid_of_file(_content); x is <= 64 bytes, 4095-4097, around the block size, or a source integer; every call must "
+        "give the digests of the bytes IT was given, the hasher the copy came from must still be at x, and the handed-out hasher "
+        "must continue from x (the model is unchanged: a chunked run for the handed-out hasher, a plain run for every other call); x carries a per-case "
+        "salt and a case failing in process is re-decided in a fresh interpreter, so that a reported case fails on its own.  "
+        "SOURCE-DERIVED values: about 8 % of "
         "the data lengths (routes, names, shape, stream kinds), a chunking style and some declared lengths are integer constants "
         "occurring in swh/model/*.py of the tree under test (each with -1/+1; up to 100 kB where the model is evaluated, up to 2 MiB "
         "for the MultiHash routes, those above 150 kB being checked by the property oracle only, the model not run), and about 8 % "
@@ -1251,6 +1265,191 @@ def impl_seq(c):
     return {"visits": out}
 
 
+# ---- handout: the caller keeps using a hasher a classmethod handed out, then the same input is hashed again ----
+_SALT = [1 << 20]
+
+
+def handout_x(c):
+    """the byte string x of a handout case: its data with the case's salt xor-ed into the first bytes, so that two cases (and two
+    shrinking candidates) evaluated in one process never share x - a memo polluted by one cannot decide the verdict of another,
+    and a reported case fails on its own in a fresh process"""
+    d = data_of(c["x"])
+    salt = c.get("salt", 0)
+    if not salt or not d:
+        return d
+    m = min(4, len(d))
+    sb = (salt % (256 ** m)).to_bytes(m, "big")
+    return bytes(a ^ b for a, b in zip(d[:m], sb)) + d[m:]
+
+
+def fresh_salt():
+    _SALT[0] += 1
+    return _SALT[0]
+
+
+def handout_variant(c, what, x):
+    """the byte string of an `again` step: the very object x, an equal but distinct object, a prefix, the extension the caller
+    streamed, the extension alone"""
+    ys = b"".join(bytes.fromhex(h) for h in c["ys"])
+    if what == "same":
+        return x
+    if what == "equal":
+        return bytes(bytearray(x))
+    if what.startswith("prefix"):
+        return x[:max(0, len(x) - int(what[6:] or 1))]
+    if what == "ext":
+        return x + ys
+    if what == "y":
+        return ys
+    raise ValueError(what)
+
+
+def run_mem_route(route, v, tag):
+    """one entry point on the byte string v; a trailing 0 = hash_names left at its default"""
+    from swh.model import cli, from_disk, hashutil, model
+    MH = hashutil.MultiHash
+    default = route.endswith("0")
+    code = route.rstrip("0")
+    kw = {} if default else {"hash_names": list(hashutil.DEFAULT_ALGORITHMS) + ["length"]}
+    n = len(v)
+    if code == "fd":
+        return guard(lambda: mh_res(MH.from_data(v, **kw).digest()))
+    if code == "ff":
+        return guard(lambda: mh_res(MH.from_file(io.BytesIO(v), length=n, **kw).digest()))
+    if code in ("fp", "df", "cf"):
+        path = write_tmp(v, "ho-" + tag)
+        if code == "fp":
+            return guard(lambda: mh_res(MH.from_path(path, **kw).digest()))
+        if code == "cf":
+            return guard(lambda: {"length": None, "d": {"swhid": str(cli.swhid_of_file(path.encode())).encode().hex()}})
+
+        def df():
+            o = from_disk.Content.from_file(path=path.encode())
+            return content_res(lambda k: o.data[k], o.data["length"], {"absent": "00" if o.data["status"] == "visible" else "01"})
+        return guard(df)
+    if code == "ch":
+        def chunked():
+            h = MH(length=n, **kw)
+            h.update(v[:n // 2])
+            h.update(v[n // 2:])
+            return mh_res(h.digest())
+        return guard(chunked)
+    if code == "hg":
+        return guard(lambda: {"length": None, "d": {"sha1_git": hashutil.hash_git_data(v, "blob").hex()}})
+    if code == "mc":
+        def mc():
+            o = model.Content.from_data(v)
+            return content_res(lambda k: getattr(o, k), o.length)
+        return guard(mc)
+    if code == "ms":
+        def ms():
+            o = model.SkippedContent.from_data(v, reason="r")
+            return content_res(lambda k: getattr(o, k), o.length)
+        return guard(ms)
+    if code == "db":
+        def db():
+            o = from_disk.Content.from_bytes(mode=0o100644, data=v)
+            return content_res(lambda k: o.data[k], o.data["length"])
+        return guard(db)
+    if code == "dl":
+        def dl():
+            lp = os.path.join(tmpdir(), "ho-lnk-" + tag)
+            if os.path.lexists(lp):
+                os.unlink(lp)
+            os.symlink(v, lp.encode())
+            o = from_disk.Content.from_file(path=lp.encode())
+            return content_res(lambda k: o.data[k], o.data["length"])
+        return guard(dl)
+    if code == "cs":
+        return guard(lambda: {"length": None, "d": {"swhid": str(cli.swhid_of_file_content(v)).encode().hex()}})
+    raise ValueError(route)
+
+
+def handout_names(c):
+    from swh.model import hashutil
+    return sorted(hashutil.DEFAULT_ALGORITHMS) if c.get("hnames") is None else list(c["hnames"])
+
+
+def impl_handout(c):
+    """In process; but a case that FAILS in process is decided again in a fresh interpreter: state left in this process by
+    earlier cases (a polluted memo) must not make a case fail that passes on its own - the case that pollutes fails on its own
+    too and is the one reported, so the replay is self-contained."""
+    res = impl_handout_here(c)
+    if os.environ.get("C01_HANDOUT_CHILD"):
+        return res
+    try:
+        failing = oracle_handout(c, res) is not None
+    except Exception:
+        failing = True
+    if not failing:
+        return res
+    try:
+        import json
+        from . import core
+        code = ("import sys, json; sys.path.insert(0, %r); sys.path.insert(0, %r); from harness import c01; "
+                "print(json.dumps(c01.impl_handout_here(json.load(sys.stdin))))" % (core.VERIF, core.REPO))
+        p = subprocess.run([sys.executable, "-c", code], input=json.dumps(c).encode(), capture_output=True, timeout=50,
+                           env=dict(os.environ, C01_HANDOUT_CHILD="1"))
+        return json.loads(p.stdout.decode().strip().splitlines()[-1])
+    except Exception:
+        return res
+
+
+def impl_handout_here(c):
+    from swh.model import hashutil
+    MH = hashutil.MultiHash
+    x = handout_x(c)
+    ys = [bytes.fromhex(h) for h in c["ys"]]
+    kw = {} if c.get("hnames") is None else {"hash_names": list(c["hnames"])}
+    res = {"pre": [], "events": [], "again": [], "origin": None}
+    for k, route in enumerate(c.get("pre", [])):
+        res["pre"].append(run_mem_route(route, x, "pre%d" % k))
+    origin = None
+    try:
+        mk = c["maker"]
+        if mk == "from_data":
+            h = MH.from_data(x, **kw)
+        elif mk == "from_file":
+            h = MH.from_file(io.BytesIO(x), length=len(x), **kw)
+        elif mk == "from_path":
+            h = MH.from_path(write_tmp(x, "ho-maker"), **kw)
+        elif mk in ("copy", "from_state"):
+            origin = MH(length=len(x), **kw)
+            origin.update(x)
+            if mk == "copy":
+                h = origin.copy()
+            else:
+                h = MH.from_state({a: (o.copy() if a != "length" else o) for a, o in origin.state.items()}, origin.track_length)
+        else:                                          # "fresh": the other side - a fresh hasher streams x then the extension
+            h = MH(length=c["declared"], **kw)
+            h.update(x)
+        for op in c["after"]:                          # the caller goes on using the object it was handed
+            if op[0] == "u":
+                h.update(ys[op[1]])
+            else:
+                res["events"].append(mh_res_form(call_form(h, op[1]), op[1]))
+        if origin is not None:
+            res["origin"] = mh_res(origin.digest())    # the hasher the copy was taken from has only seen x
+    except Exception as e:
+        res["events"].append({"error": exc_class(e)})
+    for k, (what, route) in enumerate(c["again"]):
+        res["again"].append(run_mem_route(route, handout_variant(c, what, x), "ag%d" % k))
+    return res
+
+
+def handout_streams(c):
+    """the bytes the handed-out object has consumed at each of its digest events"""
+    x = handout_x(c)
+    ys = [bytes.fromhex(h) for h in c["ys"]]
+    cur, out = [x], []
+    for op in c["after"]:
+        if op[0] == "u":
+            cur.append(ys[op[1]])
+        else:
+            out.append(list(cur))
+    return out
+
+
 def module_constants():
     from swh.model import hashutil
     return (sorted(hashutil.ALGORITHMS), sorted(hashutil.DEFAULT_ALGORITHMS), hashutil.HASH_BLOCK_SIZE)
@@ -1274,6 +1473,8 @@ def impl_kind(c):
         return impl_hgd(c)
     if c["kind"] == "seq":
         return impl_seq(c)
+    if c["kind"] == "handout":
+        return impl_handout(c)
     if c["kind"] == "overlap":
         return impl_overlap(c)
     if c["kind"] == "stream":
@@ -1318,6 +1519,20 @@ def requests(c):
                                               "|".join(hx(ch) for ch in chunks) if chunks else "~")]
     if c["kind"] == "hgd":
         return ["hgd sym %s %s %s" % (hx(c["type"].encode()), hx((c.get("base") or "sha1").encode()), hx(data_of(c["data"])))]
+    if c["kind"] == "handout":
+        # the model is unchanged: the handed-out object is a hasher that has consumed x, then what the caller fed it (a chunked
+        # run with the declared length it was created with); every other hashing is a plain run on the bytes it was given
+        from swh.model.hashutil import DEFAULT_ALGORITHMS
+        x = handout_x(c)
+        declared = c["declared"] if c["maker"] == "fresh" else len(x)
+        reqs = ["run sym ch %s %d %s ~ -" % (enc_names(handout_names(c)), declared, "|".join(hx(p) for p in parts))
+                for parts in handout_streams(c)]
+        if c["maker"] in ("copy", "from_state"):
+            reqs.append("run sym ch %s %d %s ~ -" % (enc_names(handout_names(c)), len(x), hx(x)))
+        for route, v in [(r, x) for r in c.get("pre", [])] + [(r, handout_variant(c, w, x)) for w, r in c["again"]]:
+            names = sorted(DEFAULT_ALGORITHMS) if route.endswith("0") else ["length"] + sorted(DEFAULT_ALGORITHMS)
+            reqs.append("run sym %s %s %d %s ~ -" % (route.rstrip("0"), enc_names(names), len(v), hx(v) if v else "~"))
+        return reqs
     if c["kind"] == "seq":
         from swh.model.hashutil import DEFAULT_ALGORITHMS
         names = enc_names(["length"] + sorted(DEFAULT_ALGORITHMS))
@@ -1436,6 +1651,8 @@ def model(c, resp):
         return {"sym": parse_run(resp[0])}
     if c["kind"] == "seq":
         return {"visits": [parse_run(r) for r in resp]}
+    if c["kind"] == "handout":
+        return {"runs": [parse_run(r) for r in resp]}
     out = {"sym": parse_run(resp[0])}
     k = 1
     if c.get("sched"):
@@ -1535,6 +1752,30 @@ def compare(c, ires, mres):
                 why = cmp_route(code, m[code], i, data)
                 if why:
                     return why
+        return None
+    if c["kind"] == "handout":
+        x = handout_x(c)
+        runs = list(mres["runs"])
+        for m in runs:
+            if "model_failure" in m:
+                return "model failed: " + m["model_failure"][:200]
+        streams = handout_streams(c)
+        if len(ires["events"]) != len(streams):
+            return "the handed-out hasher produced %d digest events, %d expected (%s)" % (len(ires["events"]), len(streams), ires["events"][-1:])
+        for k, (parts, ev) in enumerate(zip(streams, ires["events"])):
+            why = cmp_route("digest %d of the hasher handed out by %s" % (k, c["maker"]), runs.pop(0)["ch"], ev, b"".join(parts))
+            if why:
+                return why
+        if c["maker"] in ("copy", "from_state"):
+            why = cmp_route("the hasher the copy was taken from", runs.pop(0)["ch"], ires["origin"], x)
+            if why:
+                return why
+        items = [(r, x, i) for r, i in zip(c.get("pre", []), ires["pre"])] + \
+                [(r, handout_variant(c, w, x), i) for (w, r), i in zip(c["again"], ires["again"])]
+        for route, v, i in items:
+            why = cmp_route(route, runs.pop(0)[route.rstrip("0")], i, v)
+            if why:
+                return why
         return None
     if c["kind"] == "seq":
         for k, ((idx, routes), m, i) in enumerate(zip(c["visits"], mres["visits"], ires["visits"])):
@@ -1666,6 +1907,58 @@ def oracle_hgd(c, ires):
     return None
 
 
+def oracle_handout(c, ires):
+    """a hasher handed out by a classmethod belongs to the caller: feeding it changes nothing for anybody else, and it
+    continues from the bytes it was created on"""
+    from swh.model.hashutil import DEFAULT_ALGORITHMS
+    dflt = sorted(DEFAULT_ALGORITHMS)
+    x = handout_x(c)
+    names = set(handout_names(c))
+    declared = c["declared"] if c["maker"] == "fresh" else len(x)
+    who = "the hasher returned by %s(<%d bytes>%s)" % (c["maker"] if c["maker"] != "fresh" else "MultiHash", len(x),
+                                                       "" if c.get("hnames") is None else ", hash_names=%s" % c["hnames"])
+    for k, r in enumerate(ires.get("pre", [])):
+        why = oracle({"kind": "names", "data": {"t": "hex", "v": x.hex()}, "names": dflt if c["pre"][k].endswith("0") else None, "cuts": []},
+                     {c["pre"][k].rstrip("0"): r}, None)
+        if why:
+            return "before anything was handed out: " + why
+    streams = handout_streams(c)
+    if len(ires["events"]) != len(streams):
+        return "%s: %d digest events, %d expected (%s)" % (who, len(ires["events"]), len(streams), ires["events"][-1:])
+    checks = [(b"".join(parts), ev, "%s, digest call %d after %d update(s)" % (who, k, len(parts) - 1))
+              for k, (parts, ev) in enumerate(zip(streams, ires["events"]))]
+    if ires.get("origin") is not None:
+        checks.append((x, ires["origin"], "the hasher that %s was copied from, after the copy was fed" % who))
+    for fed, ev, label in checks:
+        if "error" in ev:
+            return "%s raised %s" % (label, ev["error"])
+        for a, dg in ev["d"].items():
+            if a.endswith("_git") and declared != len(fed):
+                continue           # the declared length is that of x: *_git of an extended stream is outside the domain
+            if dg != spec_digest(a, declared, fed).hex():
+                return "%s: %s is %s, expected %s (%d bytes fed)" % (label, a, dg, spec_digest(a, declared, fed).hex(), len(fed))
+        if set(ev["d"]) != names - {"length"} or ev["length"] != (len(fed) if "length" in names else None):
+            return "%s: names %s, length %s after %d bytes" % (label, sorted(ev["d"]), ev["length"], len(fed))
+    for k, ((what, route), r) in enumerate(zip(c["again"], ires["again"])):
+        v = handout_variant(c, what, x)
+        code = route.rstrip("0")
+        why = oracle({"kind": "names", "data": {"t": "hex", "v": v.hex()}, "cuts": [],
+                      "names": dflt if route.endswith("0") else None},
+                     {code: r}, None)
+        if why:
+            stale = ""
+            if "error" not in r:
+                got = r["d"].get("sha1") or r["d"].get("sha1_git") or ""
+                for parts in streams:
+                    fed = b"".join(parts)
+                    if fed != v and got in (hashlib.sha1(fed).hexdigest(), hashlib.sha1(b"blob %d\0" % len(x) + fed).hexdigest()):
+                        stale = " - these are the digests of the %d bytes the caller streamed into its own hasher" % len(fed)
+            return ("after %s was fed %d more byte(s) by its caller, hashing %s (%d bytes) through %s: %s%s" % (
+                who, sum(len(bytes.fromhex(h)) for h in c["ys"]), {"same": "the same bytes object", "equal": "an equal, distinct bytes object",
+                "ext": "the extended byte string", "y": "the extension alone"}.get(what, "a prefix"), len(v), route, why, stale))
+    return None
+
+
 def oracle_seq(c, ires):
     """contents of the same length that differ in one byte, hashed one after another (and again): each its own digests"""
     if len(ires["visits"]) != len(c["visits"]):
@@ -1695,6 +1988,8 @@ def oracle(c, ires, mres):
         return oracle_hgd(c, ires)
     if c["kind"] == "seq":
         return oracle_seq(c, ires)
+    if c["kind"] == "handout":
+        return oracle_handout(c, ires)
     if c["kind"] == "overlap":
         return oracle_overlap(c, ires)
     if c["kind"] == "stream":
@@ -2166,6 +2461,7 @@ def gen(rng, tier):
     cases += gen_result_edits(rng, quick, universe)
     cases += gen_rehash(rng, quick)
     cases += gen_shapes(rng, quick, universe)
+    cases += gen_handouts(rng, quick, universe)
     # every bytes literal of the source under test once at the start and once at the end of a small content, all entry points
     sweep = [(tok, where) for tok in src_byte_literals() for where in ("start", "end")]
     if quick and len(sweep) > 90:
@@ -2185,6 +2481,52 @@ NCONTS = ["list", "set", "frozenset", "tuple", "dict", "keys", "gen", "iter"]
 DTYPES = ["bytes", "bytearray", "memoryview", "sub"]
 PTYPES = ["str", "bytes", "path", "rel", "reldot", "dotdot", "dirlink", "nonutf8"]
 HGD_BASES = [None, "sha1", "sha256", "md5", "sha512", "blake2s256", "blake2b512", "BLAKE2S256", "blake2s128", "SHA1", "sha3_256"]
+
+
+def gen_handouts(rng, quick, universe):
+    """returned-OBJECT channel: a hasher handed out by from_data / from_file / from_path / copy() / from_state (or a fresh one:
+    the sequence seen from the other side) is fed further by its caller; then the same input is hashed again everywhere"""
+    cases = []
+    sizes = [0, 1, 3, 17, 64, 65, 300, 4095, 4096, 4097, BLOCK - 1, BLOCK, BLOCK + 1]
+    makers = ["from_data", "from_data", "from_file", "from_path", "copy", "from_state", "fresh"]
+    mem0 = ["fd0", "mc", "ms", "db", "cs", "ff0", "ch0", "dl"]            # entry points that end in from_data / default names
+    other = ["fd", "ff", "fp", "fp0", "ch", "hg", "df", "cf"]
+    for k in range(70 if quick else 1800):
+        n = pick_len(rng, rng.choice(sizes[:10] if quick and rng.random() < 0.8 else sizes), cap=40000)
+        x = gen_data(rng, n, rng.choice(["rand", "rand", "text", "zero"]))
+        ys = [rng.randbytes(rng.choice([1, 1, 5, 64, 3000])).hex() for _ in range(rng.choice([1, 1, 2, 3]))]
+        after = []
+        if rng.random() < 0.3:
+            after.append(["d", rng.choice(["bin", "hex", "bytehex"])])
+        for j in range(len(ys)):
+            after.append(["u", j])
+            if rng.random() < 0.7 or j == len(ys) - 1:
+                after.append(["d", rng.choice(["bin", "bin", "hex", "bytehex"])])
+        c = {"kind": "handout", "x": x, "ys": ys, "maker": makers[k % len(makers)], "after": after, "salt": k + 1}
+        if k % 3 == 2:
+            names = [a for a in universe if rng.random() < 0.5] or ["sha1"]
+            rng.shuffle(names)
+            c["hnames"] = names
+        if c["maker"] == "fresh":
+            c["declared"] = n + sum(len(h) // 2 for h in ys)
+        if rng.random() < 0.6:
+            c["pre"] = rng.sample(mem0 + other, rng.choice([1, 2]))
+        again = [["same", "fd0"], ["equal", rng.choice(mem0)]]
+        for _ in range(rng.randrange(2, 6)):
+            again.append([rng.choice(["same", "equal", "equal", "prefix1", "prefix2", "ext", "y"]), rng.choice(mem0 + mem0 + other)])
+        rng.shuffle(again)
+        xb = handout_x(c)
+        ok = []
+        for what, route in again + [[w, r] for w, r in [["same", r] for r in c.get("pre", [])]][:0]:
+            v = handout_variant(c, what, xb)
+            if route == "dl" and not link_ok(v):
+                route = "db"
+            ok.append([what, route])
+        c["again"] = ok
+        if "pre" in c:
+            c["pre"] = [r if r != "dl" or link_ok(xb) else "db" for r in c["pre"]]
+        cases.append(c)
+    return cases
 
 
 def gen_shapes(rng, quick, universe):
@@ -2431,6 +2773,8 @@ def nontrivial(c):
         return len({data_of(sp) for sp in c["contents"]}) >= 2
     if c["kind"] == "seq":
         return len(c["visits"]) >= 2
+    if c["kind"] == "handout":
+        return len(handout_x(c)) >= 1 and any(op[0] == "u" for op in c["after"])
     if c["kind"] == "hgd":
         return True
     n = len(data_of(c["data"]))
@@ -2446,6 +2790,8 @@ def case_bytes(c):
         return sum(len(data_of(sp)) for sp in c["contents"]) * 2
     if c["kind"] == "seq":
         return len(data_of(c["base"])) * len(c["visits"])
+    if c["kind"] == "handout":
+        return (len(handout_x(c)) + sum(len(h) // 2 for h in c["ys"])) * (len(c["again"]) + len(c["after"]) + 2)
     return len(data_of(c["data"]))
 
 
@@ -2471,6 +2817,14 @@ def classify(c):
         return ks
     if c["kind"] == "hgd":
         return ks + ["hgd-type=" + (c["type"] if c["type"] in HGD_TYPES else "unknown"), "hgd-base=" + str(c.get("base"))]
+    if c["kind"] == "handout":
+        n = len(handout_x(c))
+        ks += ["handed-out-by=" + c["maker"], "handout-names=" + ("default" if c.get("hnames") is None else "given"),
+               "handout-size=" + ("<=64" if n <= 64 else "<=4096" if n <= 4096 else "4097" if n == 4097 else "<block" if n < BLOCK else "block+")]
+        for w, r in c["again"]:
+            ks.append("again=" + ("prefix" if w.startswith("prefix") else w))
+            ks.append("again-route=" + r)
+        return ks
     if c["kind"] == "seq":
         return ks + ["seq-contents=%d" % (len(c["pos"]) + 1), "seq-stream-reused" if c.get("reuse") else "seq-fresh-streams"]
     if c["kind"] == "rehash":
@@ -2552,6 +2906,26 @@ def shrink(c):
             if op[0] == "n" and len(op[1]) > 1:
                 for a in op[1]:
                     yield dict(c, ops=ops[:k] + [["n", [a], op[2]]] + ops[k + 1:])
+        return
+    if c["kind"] == "handout":
+        def cands():
+            if c.get("pre"):
+                yield {k: v for k, v in c.items() if k != "pre"}
+            if len(c["again"]) > 1:
+                for k in range(len(c["again"])):
+                    yield dict(c, again=c["again"][:k] + c["again"][k + 1:])
+            xb = handout_x(c)
+            if len(xb) > 4 and all(r != "dl" for w, r in c["again"]):
+                yield dict(c, x={"t": "hex", "v": xb[:4].hex()}, **({"declared": 4 + sum(len(h) // 2 for h in c["ys"])} if c["maker"] == "fresh" else {}))
+            if len(c["ys"]) > 1 or len(c["ys"][0]) > 2:
+                c2 = dict(c, ys=[c["ys"][0][:2]], after=[["u", 0], ["d", "bin"]])
+                if c["maker"] == "fresh":
+                    c2["declared"] = len(xb) + 1
+                yield c2
+            if c.get("hnames") is not None:
+                yield dict(c, hnames=None)
+        for cand in cands():           # a fresh salt = a fresh x: what earlier evaluations left in the process cannot matter
+            yield dict(cand, salt=fresh_salt())
         return
     if c["kind"] == "hgd":
         d = data_of(c["data"])
